@@ -8,6 +8,12 @@ def setup(root):
     h = os.path.join(root, "harness")
     if not os.path.exists(os.path.join(h, "Cargo.lock")):
         shutil.copy("/repo/Cargo.lock", os.path.join(h, "Cargo.lock"))
+    # the reference model's self-tests (expectations transcribed from the repository's own tests)
+    rc, out, err, to = run(["cargo", "test", "--offline", "-p", "vmodel"], cwd=h, env=env, timeout=3600)
+    if rc != 0:
+        print(out[-3000:] + err[-3000:])
+        print("setup: reference-model self-test failed")
+        return 1
     for args in (["cargo", "build", "--offline", "-p", "specgen"],
                  ["cargo", "build", "--offline", "--release", "-p", "rangemap_mon", "-p", "tablegen_mon"]):
         rc, out, err, to = run(args, cwd=h, env=env, timeout=3600)
